@@ -234,6 +234,21 @@ struct gauss_seidel {
 
                     level[i] = l;
                     nlev = std::max(nlev, l+1);
+
+                    // Rows that are swept later and whose unknowns this row
+                    // reads have to wait for it even when the matrix is not
+                    // structurally symmetric.
+                    for(auto a = row_begin(A, i); a; ++a) {
+                        ptrdiff_t c = a.col();
+
+                        if (forward) {
+                            if (c <= i) continue;
+                        } else {
+                            if (c >= i) continue;
+                        }
+
+                        level[c] = std::max(level[c], l+1);
+                    }
                 }
 
 
